@@ -32,6 +32,14 @@ def dec_stream(tier, seed, focus="c08"):
     if focus == "c08":
         for s in G.exhaustive_strings(maxlen):
             out.append(("dec " + hx(s), "exhaustive"))
+    if focus == "c08":
+        for d in deep_depths(tier):
+            out.append(("decq " + hx(b"l" * d + b"e" * d), "deep:list"))
+            out.append(("decq " + hx(b"d1:a" * d + b"0:" + b"e" * d), "deep:dict"))
+            out.append(("decq " + hx(b"ld1:a" * (d // 2) + b"i-7e" + b"ee" * (d // 2)), "deep:alternating"))
+            out.append(("decq " + hx(b"l" * d + b"e" * (d - 1)), "deep:unclosed"))
+        for doc in par_docs():
+            out.append(("par " + hx(doc), "parallel"))
     n = 6000 if tier == "quick" else 150000
     for i in range(n):
         rng = Rng(seed, "dec", i)
@@ -60,6 +68,15 @@ def total_stream(tier, seed):
         out.append(("dec " + hx(b"l" * d + b"e" * d), "nest:list"))
         out.append(("dec " + hx(b"d1:a" * d + b"0:" + b"e" * d), "nest:dict"))
         out.append(("dec " + hx(b"l" * d), "nest:open"))
+    valid_info = b"4:infod6:lengthi1e4:name1:t12:piece lengthi4e6:pieces20:" + bytes(20) + b"e"
+    for d in deep_depths(tier):
+        # canonical values nested d levels deep are accepted, whatever d (below the native stack limit, D4d)
+        out.append(("decq " + hx(b"l" * d + b"e" * d), "deep:list"))
+        out.append(("decq " + hx(b"d1:a" * d + b"0:" + b"e" * d), "deep:dict"))
+        out.append(("decq " + hx(b"ld1:a" * (d // 2) + b"i-7e" + b"ee" * (d // 2)), "deep:alternating"))
+        out.append(("load " + hx(b"d1:a" + b"l" * d + b"e" * d + valid_info + b"e"), "deep:valid-torrent"))
+    for doc in par_docs():
+        out.append(("par " + hx(doc), "parallel"))
     depths = [1000, 5000, 20000, 100000, 400000] if tier == "quick" else [1000, 5000, 20000, 50000, 100000, 200000, 400000, 1000000, 4000000]
     for d in depths:
         out.append(("load " + hx(b"d4:info" + b"l" * d + b"e" * d + b"e"), "nest:list"))
@@ -101,6 +118,13 @@ def total_stream(tier, seed):
             out.append((rng.choice(["dec ", "load "]) + hx(s), "value-mutated"))
     return out
 
+def deep_depths(tier):
+    return [600, 1023, 1024, 1025, 1100, 2000, 3000] if tier == "quick" else [600, 1000, 1023, 1024, 1025, 1026, 1100, 1500, 2000, 2047, 2048, 2049, 3000, 4000]
+
+def par_docs():
+    valid = b"d4:infod6:lengthi1e4:name1:t12:piece lengthi4e6:pieces20:" + bytes(20) + b"ee"
+    return [valid, b"d1:a" + b"l" * 400 + b"e" * 400 + valid[1:], b"l" * 900 + b"e" * 900, b"d1:ad1:b" + b"li1e" * 300 + b"e" * 300 + b"ee" + valid[1:], b"i1", b""]
+
 def load_stream(tier, seed):
     out = []
     n = 8000 if tier == "quick" else 250000
@@ -108,6 +132,9 @@ def load_stream(tier, seed):
         rng = Rng(seed, "load", i)
         data, tag = G.gen_meta(rng)
         out.append(("load " + hx(data), tag))
+        if i % 8 == 0:
+            for v, vtag in G.noncanonical_variants(rng, data):
+                out.append(("load " + hx(v), vtag))
     return out
 
 def c07_stream(tier, seed):
@@ -183,7 +210,7 @@ def neighbourhood(seed, cases, rounds):
             out.append((stream + " " + hx(s), "search"))
     return out
 
-EXTRA_MODULES = {"C09": ["TB.Props.C09cost"]}
+EXTRA_MODULES = {"C09": ["TB.Props.C09cost"], "C06": ["TB.Props.C06layout"]}
 
 def scale_cases(tier):
     """C09 promptness on WIDE inputs (the depth family is in total_stream): documents of 0.2-2 MB (thorough: four times
